@@ -348,6 +348,10 @@ func (c *Ctx) c15WhoRemovesLabels() {
 				return true
 			}
 			n++
+			// inside the invalidation itself (InvalidateByLabels or helpers reachable only from it) cutting labels is the point
+			if roots := c.exportedRootsOf(fn); name == "InvalidationIndex.InvalidateByLabels" || !fn.Exported() && len(roots) == 1 && roots[0] == "InvalidationIndex.InvalidateByLabels" {
+				return true
+			}
 			bad = true
 			r.Bad("R15.1", name, "labels-dropped-outside-invalidation", c.Pos(call.Pos()), "labels are deleted from the index outside the cut of an invalidation: keys registered under them (also by other caches of that name) are never invalidated", nil)
 			return true
